@@ -211,7 +211,11 @@ def natural(case):
     """Natural column lengths, available width and which columns are 'long' by the documented algorithm."""
     n = len(case["rows"][0])
     cells = ([case["header"]] if case["header"] else []) + case["rows"]
-    lens = [max(len(TAG.sub("", row[c]).rstrip()) for row in cells) for c in range(n)]
+    if case.get("escaped"):
+        # escaped markup is text: '\\<u>' shows as '<u>' and counts three characters
+        lens = [max(len(row[c].replace("\\<", "<").rstrip()) for row in cells) for c in range(n)]
+    else:
+        lens = [max(len(TAG.sub("", row[c]).rstrip()) for row in cells) for c in range(n)]
     l, c, r, pad = border_chars(case["style"])
     avail = case["width"] - case["indent"] - len(l) - len(r) - (n - 1) * len(c) - n * 2 * pad
     wraps = sum(lens) > avail
